@@ -941,3 +941,134 @@ Lemma nonvacuous :
   /\ length (shards s) = 3%nat
   /\ (n_old s, n_dropped s, n_unint s) = (1, 1, 1).
 Proof. vm_compute. repeat split. Qed.
+
+(* ---------------- every request carries between 1 and MaxSamplesPerSend samples ---------------- *)
+
+Section BatchBound.
+  Variable relab : labels -> option labels.
+  Variables (bsz nbq : nat) (ext : labels).
+  Hypothesis bsz_pos : (0 < bsz)%nat.
+
+  Notation step := (step relab bsz nbq ext false).
+  Notation run := (run relab bsz nbq ext false).
+
+  Definition bok (b : list item) : Prop := (0 < length b <= bsz)%nat.
+
+  Definition Bsh (sh : shard) : Prop :=
+    Forall bok (q_chan (sh_q sh)) /\ (length (q_batch (sh_q sh)) < bsz)%nat
+    /\ (forall b, sh_infl sh = Some b -> bok b).
+
+  Definition BI (s : st) : Prop :=
+    (forall sh, In sh (shards s) -> Bsh sh) /\ batches_ok bsz (log s) = true.
+
+  Ltac bsplit := split; [|split].
+  Ltac binfl := let b' := fresh "b" in let E := fresh "E" in intros b' E; try discriminate; inversion E; subst; auto.
+
+  Lemma B_new : Bsh sh_new.
+  Proof. bsplit; simpl; auto; discriminate. Qed.
+
+  Lemma B_take : forall sh, Bsh sh -> Bsh (sh_take sh).
+  Proof.
+    intros sh HB. pose proof HB as [H1 [H2 H3]]. unfold sh_take.
+    destruct (negb (runner_idle sh)); auto.
+    unfold q_recv. destruct (q_chan (sh_q sh)) as [|b r] eqn:Ec.
+    - destruct (q_closed (sh_q sh)); auto. bsplit; simpl; auto; try discriminate; rewrite ?Ec; auto.
+    - inversion H1; subst. bsplit; simpl; auto. binfl.
+  Qed.
+
+  Lemma B_timer : forall sh, Bsh sh -> Bsh (sh_timer sh).
+  Proof.
+    intros sh HB. pose proof HB as [H1 [H2 H3]]. unfold sh_timer.
+    destruct (negb (runner_idle sh)); auto.
+    unfold q_timer. destruct (q_chan (sh_q sh)) as [|b r] eqn:Ec.
+    - destruct (q_closed (sh_q sh)).
+      + bsplit; simpl; auto; try discriminate; rewrite ?Ec; auto.
+      + destruct (q_batch (sh_q sh)) as [|x l] eqn:Eb; bsplit; simpl; auto; try discriminate; try lia.
+        binfl. unfold bok. simpl in *. lia.
+    - inversion H1; subst. destruct b; bsplit; simpl; auto; try discriminate.
+      binfl.
+  Qed.
+
+  Lemma B_done : forall sh, Bsh sh -> Bsh (mkSh (sh_q sh) None (sh_exit sh) (sh_fl sh)).
+  Proof. intros sh [H1 [H2 H3]]. bsplit; simpl; auto; discriminate. Qed.
+
+  Lemma B_flushpush : forall sh, Bsh sh -> Bsh (sh_flushpush nbq false sh).
+  Proof.
+    intros sh HB. pose proof HB as [H1 [H2 H3]]. unfold sh_flushpush.
+    destruct (sh_fl sh); auto.
+    unfold q_tryflush. destruct (q_batch (sh_q sh)) as [|x l] eqn:Eb.
+    - bsplit; simpl; auto. rewrite Eb; simpl; lia.
+    - destruct (Nat.ltb _ _).
+      + bsplit; simpl; auto; try lia. apply Forall_app. split; auto.
+        constructor; auto. unfold bok. simpl in *. lia.
+      + bsplit; simpl; auto. rewrite Eb. auto.
+  Qed.
+
+  Lemma B_flushclose : forall sh, Bsh sh -> Bsh (sh_flushclose sh).
+  Proof.
+    intros sh HB. pose proof HB as [H1 [H2 H3]]. unfold sh_flushclose.
+    destruct (sh_fl sh); auto. bsplit; simpl; auto; lia.
+  Qed.
+
+  Lemma BI_local : forall s s' k f,
+    BI s -> shards s' = upd k f (shards s) -> log s' = log s -> (forall sh, Bsh sh -> Bsh (f sh)) -> BI s'.
+  Proof.
+    intros s s' k f [H1 H2] E1 E2 Hf. split; rewrite ?E1, ?E2; auto.
+    intros sh Hin. destruct (in_upd _ _ _ _ _ Hin) as [H|[sh0 [H ->]]]; auto.
+  Qed.
+
+  Lemma BI_same : forall s s', BI s -> shards s' = shards s -> log s' = log s -> BI s'.
+  Proof. intros s s' [H1 H2] E1 E2. split; rewrite ?E1, ?E2; auto. Qed.
+
+  Lemma batches_ok_snoc : forall lg b oc, batches_ok bsz lg = true -> bok b -> batches_ok bsz (lg ++ [(b, oc)]) = true.
+  Proof.
+    intros lg b oc H [Hb1 Hb2]. unfold batches_ok in *. rewrite forallb_app, H. simpl.
+    apply Nat.ltb_lt in Hb1. apply Nat.leb_le in Hb2. rewrite Hb1, Hb2. reflexivity.
+  Qed.
+
+  Lemma BI_step : forall s o, BI s -> BI (step s o).
+  Proof.
+    intros s o HB. pose proof HB as [H1 H2].
+    destruct o as [ref raw seg|idx|ref t old| |k|k|k oc| |k|k| |n]; simpl.
+    - unfold do_store. destruct (relab _); eapply BI_same; eauto.
+    - eapply BI_same; eauto.
+    - unfold do_lookup. destruct (pend s); auto. destruct old; [eapply BI_same; eauto|].
+      destruct (aget _ _); [eapply BI_same; eauto|]. destruct (memZ _ _); eapply BI_same; eauto.
+    - unfold do_enqueue. destruct (pend s) as [x|]; auto. destruct (soft s); auto.
+      destruct (nth_error (shards s) _) as [sh|] eqn:En; auto.
+      pose proof (H1 sh (nth_error_In _ _ En)) as [C1 [C2 C3]].
+      unfold q_append. destruct (q_closed (sh_q sh)); [eapply BI_same; eauto|].
+      destruct (Nat.eqb (length (q_batch (sh_q sh) ++ [x])) bsz) eqn:El.
+      + destruct (Nat.ltb _ nbq); auto. split; simpl; auto.
+        intros sh' Hin. destruct (in_upd _ _ _ _ _ Hin) as [H|[sh0 [H ->]]]; auto.
+        destruct (H1 sh0 H) as [D1 [D2 D3]]. bsplit; simpl; auto.
+        apply Forall_app. split; auto. constructor; auto. apply Nat.eqb_eq in El. unfold bok. lia.
+      + split; simpl; auto.
+        intros sh' Hin. destruct (in_upd _ _ _ _ _ Hin) as [H|[sh0 [H ->]]]; auto.
+        destruct (H1 sh0 H) as [D1 [D2 D3]]. bsplit; simpl; auto.
+        apply Nat.eqb_neq in El. rewrite app_length in *. simpl in *. lia.
+    - eapply BI_local; eauto; simpl; auto. apply B_take.
+    - eapply BI_local; eauto; simpl; auto. apply B_timer.
+    - unfold do_send. destruct (nth_error (shards s) k) as [sh|] eqn:En; auto.
+      destruct (sh_infl sh) as [b|] eqn:Ei; auto.
+      assert (Hb : bok b). { destruct (H1 sh (nth_error_In _ _ En)) as [_ [_ C3]]. auto. }
+      destruct oc; split; simpl; try (apply batches_ok_snoc; auto); auto;
+        intros sh' Hin; destruct (in_upd _ _ _ _ _ Hin) as [H|[sh0 [H ->]]]; auto; apply B_done; auto.
+    - eapply BI_same; eauto.
+    - destruct (soft s); auto. eapply BI_local; eauto; simpl; auto. apply B_flushpush.
+    - destruct (soft s); auto. eapply BI_local; eauto; simpl; auto. apply B_flushclose.
+    - destruct (soft s && negb (all_exited (shards s))); auto. split; simpl; auto.
+      intros sh Hin. apply in_map_iff in Hin. destruct Hin as [sh0 [<- _]].
+      bsplit; simpl; auto; discriminate.
+    - destruct (soft s && all_exited (shards s) && Nat.ltb 0 n); auto. split; simpl; auto.
+      intros sh Hin. apply repeat_spec in Hin. subst. apply B_new.
+  Qed.
+
+  Theorem batch_bound : forall n0 ops, batches_ok bsz (log (run n0 ops)) = true.
+  Proof.
+    intros n0 ops. assert (BI (run n0 ops)) as [_ H]; auto.
+    induction ops as [|o ops IH] using rev_ind.
+    - split; simpl; auto. intros sh Hin. apply repeat_spec in Hin. subst. apply B_new.
+    - unfold RemoteQueue.run. rewrite fold_left_app. simpl. apply BI_step. exact IH.
+  Qed.
+End BatchBound.
